@@ -99,6 +99,19 @@ pub fn run(args: &Args) -> i32 {
                 m.overrides.walls.insert(w.id, bemodel::WallPropsOverrides { u_value: None });
             }
         }
+        // values one f32 step away from a serde default: a "skip if default" predicate must not take them for the default
+        if i % 3 == 2 {
+            let below_one = f32::from_bits(1.0f32.to_bits() - 1);
+            let above_one = f32::from_bits(1.0f32.to_bits() + 1);
+            let tiny = f32::from_bits(1);
+            for (k, s) in m.spaces.iter_mut().enumerate() {
+                s.multiplier = [below_one, above_one, 1.0 - f32::EPSILON, 1.0 + f32::EPSILON][k % 4];
+                s.z = [tiny, -tiny, f32::MIN_POSITIVE, -f32::EPSILON][k % 4];
+            }
+            for (k, tb) in m.thermal_bridges.iter_mut().enumerate() {
+                tb.psi = [tiny, -tiny, f32::EPSILON][k % 3];
+            }
+        }
         if i % 7 == 0 {
             m.extra = Some(vec![]);
         }
